@@ -241,6 +241,11 @@ class ProxyFamily(Family):
             [P(l.PLAIN, l.TUINT, 8, 8), P(l.VARYING, l.TBLOB, 3), P(l.PLAIN, l.TTRK, 4, 4)],
             [P(l.PLAIN, l.TU8, 1), P(l.VARYING, l.TUINT, 4, 4), P(l.PLAIN, l.TU8, 1), P(l.VARYING, l.TBLOB, 5, 2)],
             [P(l.FIXED, l.TTRK, 8), P(l.PLAIN, l.TTRK, 8)],
+            # types that are trivial for ONE of the two assignments: the copy and the move run table differ
+            [P(l.PLAIN, l.TUINT, 4), P(l.PLAIN, l.TTRKMA, 4), P(l.FIXED, l.TTRKCA, 4)],
+            [P(l.PLAIN, l.TTRKMA, 8, 8), P(l.PLAIN, l.TUINT, 4, 4), P(l.PLAIN, l.TTRKCA, 2)],
+            [P(l.FIXED, l.TTRKCA, 3), P(l.PLAIN, l.TU8, 1), P(l.FIXED, l.TTRKMA, 4, 4)],
+            [P(l.PLAIN, l.TUINT, 8, 8), P(l.VARYING, l.TBLOB, 3), P(l.PLAIN, l.TTRKMA, 4, 4), P(l.PLAIN, l.TTRKCA, 4)],
         ]
 
     def jobs(self, rng, tier):
@@ -341,6 +346,26 @@ class FaultFamily(Family):
                 scripts.append((gen.script_id(v), v, None))
                 self.add_stats({"fault-assign-into-moved-from": 1})
             jobs.append(Job(L, K, scripts, tag="fault"))
+        # element-wise move assignment (unequal, non-propagating allocators) into a NON-EMPTY target,
+        # block reused or not, and the moved-from family, under every failing allocation: on lists
+        # with instrumented types, where destroying before allocating is visible (seed C17c)
+        Lt = [L for L in Ls if not lay.all_triv(L)] + [L for L in Ls if lay.all_triv(L)]
+        for li, L in enumerate(Lt[:(6 if tier == "quick" else 24)]):
+            K = [K_PMR, (1, 0, 1, 0, 1), (1, 0, 0, 0, 0)][li % 3]
+            maxk = 3 if lay.has_varying(L) else 2
+            scripts = []
+            for _ in range(3 * mult):
+                for r in (gen.gen_move_elementwise(L, K, rng), gen.gen_moved_from(L, K, rng)):
+                    if r is None:
+                        continue
+                    base = list(r[0])
+                    while base and base[-1].startswith("destroy"):
+                        base.pop()
+                    for v in gen.fault_variants(base, maxk):
+                        scripts.append((gen.script_id(v), v, None))
+                        self.add_stats({"fault-elementwise-move-or-moved-from": 1})
+            if scripts:
+                jobs.append(Job(L, K, scripts, tag="fault-move"))
         return jobs
 
 
